@@ -94,6 +94,28 @@ class _Canon(ast.NodeTransformer):
             return ast.Compare(left=node.left.slice, ops=[ast.NotIn() if isinstance(node.ops[0], ast.Is) else ast.In()], comparators=[node.left.value])
         return node
 
+    def visit_Subscript(self, node):
+        self.generic_visit(node)
+        v, sl = node.value, node.slice
+        # X[a:b][i] -> X[a + i] (constant a, i >= 0 inside the slice)
+        if isinstance(sl, ast.Constant) and isinstance(sl.value, int) and not isinstance(sl.value, bool) and sl.value >= 0 and isinstance(v, ast.Subscript) \
+                and isinstance(v.slice, ast.Slice) and v.slice.step is None:
+            lo = 0 if v.slice.lower is None else (v.slice.lower.value if isinstance(v.slice.lower, ast.Constant) else None)
+            hi = None if v.slice.upper is None else (v.slice.upper.value if isinstance(v.slice.upper, ast.Constant) else "?")
+            if isinstance(lo, int) and lo >= 0 and (hi is None or (isinstance(hi, int) and hi >= 0 and lo + sl.value < hi)):
+                return ast.Subscript(value=v.value, slice=ast.Constant(lo + sl.value), ctx=node.ctx)
+        # X[0:] -> written X[0:] stays; X[:k] lower made explicit
+        if isinstance(sl, ast.Slice) and sl.lower is None and sl.step is None:
+            node.slice = ast.Slice(lower=ast.Constant(0), upper=sl.upper, step=None)
+        return node
+
+    def visit_Starred(self, node):
+        self.generic_visit(node)
+        v = node.value
+        if isinstance(v, ast.Call) and isinstance(v.func, ast.Name) and v.func.id in ("tuple", "list") and len(v.args) == 1 and not v.keywords:
+            node.value = v.args[0]
+        return node
+
     def _comp(self, node):
         ren = {}
         for g in node.generators:
@@ -303,6 +325,15 @@ class Summarizer:
             if isinstance(tg, ast.Name):
                 env[tg.id] = self._sub(st.value, env, depth)
                 return [(env, conds)]
+            if isinstance(tg, ast.Tuple) and sum(isinstance(x, ast.Starred) for x in tg.elts) == 1 and isinstance(tg.elts[-1], ast.Starred) \
+                    and isinstance(tg.elts[-1].value, ast.Name) and all(isinstance(x, ast.Name) for x in tg.elts[:-1]):
+                # ``a, b, *rest = X``: a = X[0], b = X[1], rest = the elements of X[2:]
+                v = self._sub(st.value, env, depth)
+                k = len(tg.elts) - 1
+                for i, x in enumerate(tg.elts[:-1]):
+                    env[x.id] = v.elts[i] if isinstance(v, ast.Tuple) and len(v.elts) > i else _Canon().visit(ast.Subscript(value=v, slice=ast.Constant(i), ctx=ast.Load()))
+                env[tg.elts[-1].value.id] = ast.Subscript(value=v, slice=ast.Slice(lower=ast.Constant(k), upper=None, step=None), ctx=ast.Load())
+                return [(env, conds)]
             if isinstance(tg, ast.Tuple) and all(isinstance(x, ast.Name) for x in tg.elts):
                 v = self._sub(st.value, env, depth)
                 if isinstance(v, ast.Tuple) and len(v.elts) == len(tg.elts):
@@ -310,7 +341,7 @@ class Summarizer:
                         env[x.id] = y
                 else:
                     for i, x in enumerate(tg.elts):
-                        env[x.id] = ast.Subscript(value=v, slice=ast.Constant(i), ctx=ast.Load())
+                        env[x.id] = _Canon().visit(ast.Subscript(value=v, slice=ast.Constant(i), ctx=ast.Load()))
                 return [(env, conds)]
         if isinstance(st, ast.AnnAssign) and isinstance(st.target, ast.Name):
             if st.value is not None:
